@@ -3,7 +3,7 @@
    outside that class (and the un-normalised right flags) the reloaded room decides exactly as the
    live room. *)
 From Coq Require Import Permutation.
-From DV Require Import RightsP Run_C10.
+From DV Require Import RightsP RoomNodeP Run_C10.
 
 (* ------------------------------------------------------------------ generic replay *)
 Section Replay.
@@ -80,77 +80,6 @@ Section Replay.
     - rewrite (IH _ Hnext). rewrite <- app_assoc. reflexivity.
   Qed.
 End Replay.
-
-(* ------------------------------------------------------------------ the stable sort *)
-Section Sort.
-  Variable A : Type.
-  Variable f : A -> Z.
-
-  Fixpoint asc (l : list A) : Prop :=
-    match l with [] => True | x :: tl => Forall (fun y => f x <= f y) tl /\ asc tl end.
-
-  Lemma insert_by_perm x l : Permutation (insert_by f x l) (x :: l).
-  Proof.
-    induction l as [|y tl IH]; simpl; [apply Permutation_refl|].
-    destruct (Z.leb (f x) (f y)); [apply Permutation_refl|].
-    eapply Permutation_trans; [apply perm_skip; exact IH|apply perm_swap].
-  Qed.
-  Lemma sort_by_perm l : Permutation (sort_by f l) l.
-  Proof.
-    induction l as [|x tl IH]; simpl; [apply Permutation_refl|].
-    eapply Permutation_trans; [apply insert_by_perm|apply perm_skip; exact IH].
-  Qed.
-  Lemma sort_by_in x l : In x (sort_by f l) <-> In x l.
-  Proof. split; apply Permutation_in; [|apply Permutation_sym]; apply sort_by_perm. Qed.
-
-  Lemma insert_by_asc x l : asc l -> asc (insert_by f x l).
-  Proof.
-    induction l as [|y tl IH]; simpl; intros H; [split; [constructor|exact I]|].
-    destruct H as [Hy Ht]. destruct (Z.leb (f x) (f y)) eqn:Hle.
-    - apply Z.leb_le in Hle. simpl. split; [|split; assumption].
-      constructor; [exact Hle|]. eapply Forall_impl; [|exact Hy]. simpl. intros; lia.
-    - apply Z.leb_gt in Hle. simpl. split; [|apply IH; exact Ht].
-      eapply Permutation_Forall; [apply Permutation_sym; apply insert_by_perm|].
-      constructor; [lia|exact Hy].
-  Qed.
-  Lemma sort_by_asc l : asc (sort_by f l).
-  Proof. induction l as [|x tl IH]; simpl; [exact I|apply insert_by_asc; exact IH]. Qed.
-
-  (* in an ascending list an element with a strictly smaller key stands before *)
-  Lemma asc_before l : asc l -> forall x y, In x l -> In y l -> f x < f y ->
-    exists a b c, l = a ++ x :: b ++ y :: c.
-  Proof.
-    induction l as [|h tl IH]; simpl; intros Hs x y Hx Hy Hlt; [contradiction|].
-    destruct Hs as [Hh Hs]. destruct Hx as [Hx|Hx]; destruct Hy as [Hy|Hy].
-    - subst. lia.
-    - subst h. apply in_split in Hy. destruct Hy as (b & c & ->). exists [], b, c. reflexivity.
-    - subst h. rewrite Forall_forall in Hh. specialize (Hh x Hx). lia.
-    - destruct (IH Hs x y Hx Hy Hlt) as (a & b & c & ->). exists (h :: a), b, c. reflexivity.
-  Qed.
-
-  (* stability: the elements of a class that carries one key value keep their order *)
-  Lemma filter_insert_by (p : A -> bool) c x l :
-    (forall y, In y (x :: l) -> p y = true -> f y = c) ->
-    filter p (insert_by f x l) = if p x then x :: filter p l else filter p l.
-  Proof.
-    induction l as [|y tl IH]; intros Hc; simpl; [reflexivity|].
-    destruct (Z.leb (f x) (f y)) eqn:Hle; simpl; [reflexivity|].
-    apply Z.leb_gt in Hle.
-    rewrite IH by (intros z Hz; apply Hc; destruct Hz as [Hz|Hz]; [left; exact Hz|right; right; exact Hz]).
-    destruct (p y) eqn:Hpy; [|reflexivity].
-    destruct (p x) eqn:Hpx; [|reflexivity].
-    assert (f y = c) by (apply Hc; [right; left; reflexivity|exact Hpy]).
-    assert (f x = c) by (apply Hc; [left; reflexivity|exact Hpx]). lia.
-  Qed.
-  Lemma filter_sort_by (p : A -> bool) c l :
-    (forall y, In y l -> p y = true -> f y = c) -> filter p (sort_by f l) = filter p l.
-  Proof.
-    induction l as [|x tl IH]; intros Hc; simpl; [reflexivity|].
-    rewrite (filter_insert_by p c).
-    - rewrite IH by (intros y Hy; apply Hc; right; exact Hy). reflexivity.
-    - intros y Hy. apply Hc. destruct Hy as [Hy|Hy]; [left; exact Hy|right; apply sort_by_in; exact Hy].
-  Qed.
-End Sort.
 
 (* ------------------------------------------------------------------ the two instances *)
 Lemma replay_users_greplay us : forall l, replay_users l us = greplay user u_key u_date l us.
@@ -545,7 +474,6 @@ Proof.
 Qed.
 
 (* ------------------------------------------------------------------ statements about what the harness evaluates *)
-From DV Require Import RoomNodeP.
 
 Lemma probe_spec_decide evs p : probe_spec evs p = decide_spec evs p.
 Proof. destruct p as [[k e] d]. reflexivity. Qed.
